@@ -29,6 +29,7 @@ type Case struct {
 	N        int            `json:"n,omitempty"`
 	Programs []*gen.Program `json:"programs,omitempty"`
 	Pair     int            `json:"pair,omitempty"`
+	Big      bool           `json:"big,omitempty"` // every interpreter also loads a long text (about 300 KB) of atoms new to the process
 }
 
 func (c Case) String() string {
@@ -83,7 +84,7 @@ type result struct {
 }
 
 // workload: create, load, query, create atoms (atom_codes, atom_concat, parsing), write, number_codes.
-func workload(p *gen.Program, salt string, k int) result {
+func workload(p *gen.Program, salt string, k int, big bool) result {
 	var r result
 	i := sut.New()
 	if e := i.Exec(p.Text(), 2_000_000); e != nil {
@@ -123,6 +124,57 @@ func workload(p *gen.Program, salt string, k int) result {
 			}
 			x.WriteString(rt.Strings(rr.Answers[0]) + ";")
 			r.atoms += 2
+		}
+	}
+	// flags: every interpreter sets its own values and reads them back, singly and by enumeration, while the others do
+	// the same with other values
+	dq := []string{"codes", "chars", "atom"}[k%3]
+	unk := []string{"error", "fail", "warning"}[(k/3)%3]
+	for rep := 0; rep < 6; rep++ {
+		rr := i.Query(fmt.Sprintf("set_prolog_flag(double_quotes, %s), set_prolog_flag(unknown, %s), current_prolog_flag(double_quotes, D), current_prolog_flag(unknown, U), findall(F-V, current_prolog_flag(F, V), L), member(double_quotes-D2, L), member(unknown-U2, L).", dq, unk), []string{"D", "U", "D2", "U2"}, 2, 200000)
+		if rr.Err != nil || len(rr.Answers) != 1 || rt.Strings(rr.Answers[0]) != fmt.Sprintf("(%s, %s, %s, %s)", dq, unk, dq, unk) {
+			r.err = fmt.Errorf("interpreter %d set double_quotes=%s, unknown=%s and reads back %v (err %v)", k, dq, unk, rr.Answers, rr.Err)
+			return r
+		}
+	}
+	if e := i.Exec(":- set_prolog_flag(double_quotes, chars), set_prolog_flag(unknown, error).\n", 100000); e != nil {
+		r.err = fmt.Errorf("interpreter %d: %s", k, e)
+		return r
+	}
+	// a long text (beyond any fixed-size buffer of the reader) full of atoms that the other interpreters create at
+	// the same time; afterwards every one of them still has its own text
+	if big {
+		var tb strings.Builder
+		const nBig = 7000
+		for j := 0; j < nBig; j++ {
+			fmt.Fprintf(&tb, "big(%d, bg_%s_%d_padding_padding).\n", j, salt, j)
+		}
+		if e := i.Exec(tb.String(), 50_000_000); e != nil {
+			r.err = fmt.Errorf("interpreter %d: loading the long text failed: %s", k, e)
+			return r
+		}
+		sols, err := i.P.Query("big(N, A).")
+		if err != nil {
+			r.err = fmt.Errorf("interpreter %d: %v", k, err)
+			return r
+		}
+		n := 0
+		for sols.Next() {
+			var row struct {
+				N int
+				A string
+			}
+			if err := sols.Scan(&row); err != nil || row.N != n || row.A != fmt.Sprintf("bg_%s_%d_padding_padding", salt, n) {
+				sols.Close()
+				r.err = fmt.Errorf("interpreter %d: clause %d of the long text is big(%d, %s) (err %v)", k, n, row.N, row.A, err)
+				return r
+			}
+			n++
+		}
+		sols.Close()
+		if n != nBig {
+			r.err = fmt.Errorf("interpreter %d: the long text has %d clauses, %d are there (err %v)", k, nBig, n, sols.Err())
+			return r
 		}
 	}
 	// the host side of an answer: Scan into a struct type that no interpreter of this process has scanned into
@@ -172,7 +224,7 @@ func checkRound(c Case) (atoms int, err error) {
 		go func(k int) {
 			defer done.Done()
 			start.Wait()
-			results[k] = workload(progs[k%len(progs)], salt, k)
+			results[k] = workload(progs[k%len(progs)], salt, k, c.Big)
 		}(k)
 	}
 	start.Done()
@@ -186,7 +238,7 @@ func checkRound(c Case) (atoms int, err error) {
 			minAtoms = results[k].atoms
 		}
 		// alone, afterwards (the atoms exist by now; the answers do not depend on that)
-		solo := workload(progs[k%len(progs)], salt, k)
+		solo := workload(progs[k%len(progs)], salt, k, false)
 		if solo.err != nil {
 			return 0, fmt.Errorf("infrastructure: the solo run failed: %v", solo.err)
 		}
@@ -376,6 +428,7 @@ func TestProp(t *testing.T) {
 	}
 	r.Rapid(t, "rounds", r.Pick(240, 8000), func(t *rapid.T) {
 		c := Case{Kind: "round", N: rapid.IntRange(2, 8).Draw(t, "n")}
+		c.Big = rapid.Uint64().Draw(t, "big")%8 == 7
 		np := 1
 		if rapid.Bool().Draw(t, "distinct_programs") {
 			np = c.N
